@@ -202,8 +202,10 @@ def returns_chain(stmts, tr):
 
 
 def norm_weight(fn):
-    tr = Tr({"self.sum_of_tree_weights": ("sum_of_tree_weights", "rat"), "self.total_trees_counted": ("(total_trees_counted : Rat)", "rat")})
-    return "def calc_normalization_weight (sum_of_tree_weights : Rat) (total_trees_counted : Nat) : Rat :=\n  %s\n" % returns_chain(fn.body, tr)
+    tr = Tr({"self.sum_of_tree_weights": ("sum_of_tree_weights", "rat"), "self.total_trees_counted": ("(total_trees_counted : Rat)", "rat"),
+             "self.use_tree_weights": ("use_tree_weights", "bool")})
+    return ("def calc_normalization_weight (use_tree_weights : Bool) (sum_of_tree_weights : Rat) (total_trees_counted : Nat) : Rat :=\n  %s\n"
+            % returns_chain(fn.body, tr))
 
 
 def loop_store(stmts, target, tr):
